@@ -254,6 +254,22 @@ func checkImpl(body hcl.Body, b bodyDesc, s schemaDesc, tag string, perTypeOrder
 		vf.Assert(sameMultiset(append(blockTypes(c1), blockTypes(c2)...), want.blocks), tag+": two-step-blocks-like-one-step")
 		vf.Reach("two-step")
 	}
+	// three-step chain: partial, partial on the remainder, exhaustive on the second remainder
+	ka2, kb2 := ka+pick(na-ka+1), kb+pick(nb-kb+1)
+	p1, r1, e1 := body.PartialContent(s.hcl(0, ka, 0, kb))
+	if r1 != nil {
+		p2, r2, e2 := r1.PartialContent(s.hcl(ka, ka2, kb, kb2))
+		if r2 != nil {
+			p3, e3 := r2.Content(s.hcl(ka2, na, kb2, nb))
+			threeErr := e1.HasErrors() || e2.HasErrors() || e3.HasErrors()
+			vf.Assert(threeErr == want.err, tag+": three-step-chain-errors-like-one-step")
+			if !threeErr && !want.err {
+				all := append(append(attrNames(p1, b.attrs), attrNames(p2, b.attrs)...), attrNames(p3, b.attrs)...)
+				vf.Assert(sameMultiset(all, want.attrs), tag+": three-step-chain-attributes-like-one-step")
+				vf.Assert(sameMultiset(append(append(blockTypes(p1), blockTypes(p2)...), blockTypes(p3)...), want.blocks), tag+": three-step-chain-blocks-like-one-step")
+			}
+		}
+	}
 	// partial processing leaves the non-matching items in the remaining body, unmodified
 	w1, _ := model(b, s, 0, ka, 0, kb)
 	_, rest, _ := body.PartialContent(s.hcl(0, ka, 0, kb))
